@@ -76,6 +76,7 @@ type GenCfg struct {
 	IDSpace   int
 	MaxToks   int
 	BigVals   bool
+	IDDocVals bool // the _id field is indexed with doc values (legal, unusual)
 }
 
 var alphabet = []string{"a", "b", "c", "d", "e", "ab", "ba", "é", "日", "z", "zz", "aa", "m", "~", "0", "b\x00"}
@@ -138,6 +139,7 @@ func genCfg(c *Chooser, wantSyn, wantVec bool) *GenCfg {
 	g.IDSpace = 0 // set by caller
 	g.MaxToks = 1 + c.Choose(6, "cfg.maxtoks")
 	g.BigVals = c.Prob(1, 10, "cfg.bigvals")
+	g.IDDocVals = c.Prob(1, 8, "cfg.iddocvals")
 	if wantSyn {
 		ns := 1 + c.Choose(2, "cfg.nsyn")
 		for i := 0; i < ns; i++ {
@@ -228,6 +230,9 @@ func genDoc(c *Chooser, g *GenCfg, id string) DocSpec {
 	d := DocSpec{ID: id}
 	idf := FieldSpec{Name: "_id", Kind: 't', Opts: index.IndexField | index.StoreField, Typ: 't',
 		Value: []byte(id), Len: 1, Toks: []TokSpec{{Term: id, Freq: 1}}}
+	if g.IDDocVals {
+		idf.Opts |= index.DocValues
+	}
 	idFirst := c.Choose(4, "doc.idpos") != 0
 	if idFirst {
 		d.Fields = append(d.Fields, idf)
